@@ -4,11 +4,14 @@ import (
 	"bytes"
 	"encoding/json"
 	"fmt"
+	"math/rand/v2"
 	"reflect"
 	"sync"
 	"time"
+	"unsafe"
 
 	"github.com/philpearl/plenc/plenccodec"
+	"github.com/philpearl/plenc/plenccore"
 
 	"verifharness/core"
 	"verifharness/gen"
@@ -316,8 +319,166 @@ func renderJSON(d *plenccodec.Descriptor, data []byte) (out []byte, err error, p
 // on the documents it rendered before
 var c13Reused plenccodec.JSONOutput
 
+// rowsCodec is a codec a caller registers for [][]string: the rows are written as a count followed
+// by each row, length-prefixed, in the encoding the library's own []string codec gives it. Its
+// Descriptor says so: a slice whose elements are slices of strings.
+type rowsCodec struct{ row plenccodec.Codec }
+
+func (rowsCodec) Omit(ptr unsafe.Pointer) bool { return len(*(*[][]string)(ptr)) == 0 }
+func (rowsCodec) WireType() plenccore.WireType { return plenccore.WTSlice }
+func (c rowsCodec) Descriptor() plenccodec.Descriptor {
+	return plenccodec.Descriptor{Type: plenccodec.FieldTypeSlice, Elements: []plenccodec.Descriptor{c.row.Descriptor()}}
+}
+func (rowsCodec) New() unsafe.Pointer { return unsafe.Pointer(new([][]string)) }
+func (c rowsCodec) Size(ptr unsafe.Pointer, tag []byte) int {
+	return len(c.Append(nil, ptr, tag))
+}
+func (c rowsCodec) Append(data []byte, ptr unsafe.Pointer, tag []byte) []byte {
+	rows := *(*[][]string)(ptr)
+	data = plenccore.AppendVarUint(append(data, tag...), uint64(len(rows)))
+	for i := range rows {
+		body := c.row.Append(nil, unsafe.Pointer(&rows[i]), nil)
+		data = append(plenccore.AppendVarUint(data, uint64(len(body))), body...)
+	}
+	return data
+}
+func (c rowsCodec) Read(data []byte, ptr unsafe.Pointer, wt plenccore.WireType) (int, error) {
+	count, n := plenccore.ReadVarUint(data)
+	if n <= 0 {
+		return 0, fmt.Errorf("rows: count")
+	}
+	rows := make([][]string, count)
+	off := n
+	for i := range rows {
+		l, n := plenccore.ReadVarUint(data[off:])
+		if n <= 0 || int(l) > len(data)-off-n {
+			return 0, fmt.Errorf("rows: length")
+		}
+		off += n
+		if _, err := c.row.Read(data[off:off+int(l)], unsafe.Pointer(&rows[i]), plenccore.WTSlice); err != nil {
+			return 0, err
+		}
+		off += int(l)
+	}
+	*(*[][]string)(ptr) = rows
+	return off, nil
+}
+
+type c13Rows struct {
+	A int        `plenc:"1"`
+	R [][]string `plenc:"2"`
+	Z string     `plenc:"3"`
+}
+
+// c13Foreign: descriptors that no codec the library builds gives out, but that codecs registered
+// by a caller do (rows of strings), and a Descriptor variable that is used again for another
+// descriptor decoded into it (round 12: k13, k10)
+func c13Foreign(c *core.Ctx, idx int) {
+	rec := c.Rec
+	r := c.Rand(idx)
+	p := instNew(instCfgs()[0])
+	rowc, err := p.CodecForType(reflect.TypeOf([]string(nil)))
+	if err != nil {
+		rec.Violation("valid-type-rejected", err.Error(), nil)
+		return
+	}
+	p.RegisterCodec(reflect.TypeOf([][]string(nil)), rowsCodec{row: rowc})
+	cd, err := p.CodecForType(reflect.TypeOf(c13Rows{}))
+	if err != nil {
+		rec.Violation("valid-type-rejected", err.Error(), nil)
+		return
+	}
+	d := cd.Descriptor()
+	for j := 0; j < 6; j++ {
+		v := c13Rows{A: r.IntN(100), Z: fmt.Sprintf("z%d", j)}
+		for i, n := 0, r.IntN(4); i < n; i++ {
+			row := []string{}
+			for k, m := 0, r.IntN(4); k < m; k++ {
+				row = append(row, []string{"", "a", "b c", "\"q\""}[r.IntN(4)])
+			}
+			v.R = append(v.R, row)
+		}
+		data, err, pn := marshal(p, nil, &v)
+		if err != nil || pn != "" {
+			rec.Violation("marshal-error", fmt.Sprintf("%v %s", err, pn), nil)
+			return
+		}
+		out, err, pn := renderJSON(&d, data)
+		rec.Eval(1)
+		var got struct {
+			A int
+			R [][]string
+			Z string
+		}
+		want := v
+		if err != nil || pn != "" || json.Unmarshal(out, &got) != nil || got.A != want.A || got.Z != want.Z || len(got.R) != len(want.R) {
+			rec.Violation("json-content", fmt.Sprintf("Descriptor-driven JSON of a struct with a field whose registered codec describes itself as a slice of slices of strings (%v %s): value %+v\n  output %q", err, trunc1(pn), v, trunc1(string(out))), nil)
+			return
+		}
+		for i := range want.R {
+			if len(got.R[i]) != len(want.R[i]) {
+				rec.Violation("json-content", fmt.Sprintf("rows of strings rendered wrongly: value %+v\n  output %q", v, trunc1(string(out))), nil)
+				return
+			}
+			for k := range want.R[i] {
+				if got.R[i][k] != want.R[i][k] {
+					rec.Violation("json-content", fmt.Sprintf("rows of strings rendered wrongly: value %+v\n  output %q", v, trunc1(string(out))), nil)
+					return
+				}
+			}
+		}
+		rec.Count("foreign_descriptor_walks", 1)
+	}
+	// one Descriptor variable, two descriptors with as many fields in another layout decoded into it in turn
+	T := reflect.TypeOf
+	kinds := []reflect.Type{T(int32(0)), T(""), T(true), T(uint16(0)), T(float64(0)), T([]int32(nil)), T(int64(0)), T([]string(nil))}
+	n := 9 + r.IntN(12)
+	mk := func(seed uint64) reflect.Type {
+		pr := rand.New(rand.NewPCG(seed, uint64(idx)))
+		idxs := pr.Perm(3 * n)[:n]
+		var fs []reflect.StructField
+		for i := 0; i < n; i++ {
+			fs = append(fs, reflect.StructField{Name: fmt.Sprintf("F%d", i), Type: kinds[pr.IntN(len(kinds))], Tag: reflect.StructTag(fmt.Sprintf(`plenc:"%d"`, idxs[i]+1))})
+		}
+		return reflect.StructOf(fs)
+	}
+	var held plenccodec.Descriptor
+	for round := 0; round < 4; round++ {
+		t := mk(uint64(round%2) + 1)
+		tcd, err := p.CodecForType(t)
+		if err != nil {
+			return
+		}
+		own := tcd.Descriptor()
+		stored, err, pn := marshal(p, nil, &own)
+		if err != nil || pn != "" {
+			return
+		}
+		if err, pn := unmarshal(p, stored, &held); err != nil || pn != "" {
+			rec.Violation("descriptor-restored", fmt.Sprintf("decoding a stored descriptor into a Descriptor variable that held another one: %v %s", err, trunc1(pn)), nil)
+			return
+		}
+		v := reflect.New(t)
+		fillPresent(v.Elem(), r)
+		data, _, _ := marshal(p, nil, v.Interface())
+		a, e1, p1 := renderJSON(&own, data)
+		b, e2, p2 := renderJSON(&held, data)
+		rec.Eval(1)
+		if e1 != nil || p1 != "" || e2 != nil || p2 != "" || !bytes.Equal(a, b) {
+			rec.Violation("descriptor-restored", fmt.Sprintf("a Descriptor variable that was walked with and then had another stored descriptor (as many fields, another layout) decoded into it renders differently from the codec's own (%v %v %s %s)\n  type %s\n  own  %q\n  held %q", e1, e2, trunc1(p1), trunc1(p2), typeString(t), trunc1(string(a)), trunc1(string(b))), nil)
+			return
+		}
+		rec.Count("descriptor_variables_reused", 1)
+	}
+	rec.NonTrivial(core.Hash64("foreign", fmt.Sprint(idx)))
+}
+
 func c13Case(c *core.Ctx, idx int) {
 	rec := c.Rec
+	if idx%29 == 12 {
+		c13Foreign(c, idx)
+		return
+	}
 	tc := genDescType(c, idx, true)
 	codec, err := tc.p.CodecForType(tc.typ)
 	if err != nil {
@@ -529,7 +690,7 @@ func init() {
 	core.Register(&core.Prop{
 		ID:        "C13",
 		Technique: "descriptor-walk monitor: JSON produced by the real Descriptor.Read + JSONOutput from Marshal's output, parsed by encoding/json and matched against the generated value in the JSON data model; repeated with the Descriptor restored through plenc and through encoding/json",
-		Rule: "default configuration, one case in nine on an instance whose time.Time codec is the BigQuery timestamp codec (every eighteenth case a host type with a time in every untagged position); generated non-recursive types (no proto option) x boundary-biased values with finite floats, times within years 1..9999, valid-UTF-8 strings and non-negative narrow flat ints: slices of every element kind incl. bool/time/empty elements and nil pointers, string-keyed maps with zero values and empty keys, other maps with zero entries, pointers, null.*, JSON any with nulls. " +
+		Rule: "every 29th case (C13): a struct with a [][]string field whose codec, registered by the caller, describes itself as a slice of slices of strings; and a Descriptor variable re-used for other stored descriptors. default configuration, one case in nine on an instance whose time.Time codec is the BigQuery timestamp codec (every eighteenth case a host type with a time in every untagged position); generated non-recursive types (no proto option) x boundary-biased values with finite floats, times within years 1..9999, valid-UTF-8 strings and non-negative narrow flat ints: slices of every element kind incl. bool/time/empty elements and nil pointers, string-keyed maps with zero values and empty keys, other maps with zero entries, pointers, null.*, JSON any with nulls. " +
 			"The output must parse, match the value (omitted fields may be absent, numbers exact), and be byte-identical for the two restored descriptors and for one process-long JSONOutput that is Reset before every walk; every third case ends with 4 goroutines walking the case's messages through the one Descriptor at once. distinct = (type, value-shape) hashes with non-zero content",
 		Assume: []string{"known findings D20 (recursive types) and D21 (negative narrow flat ints) are excluded from generation", "encoding/json as the independent parser"},
 		Plan: func(tier string) []core.Lane {
